@@ -194,6 +194,10 @@ func (w *sqlWriter) leafLoop(ctx context.Context) error {
 				pruneVersion,
 			))
 			if nextPruneVersion != 0 {
+				// startPrune sets pruneVersion again, unless it finds nothing
+				// to do (no checkpoint at or below the queued version): the
+				// loop must not take the finished prune for a running one
+				pruneVersion = 0
 				if err = startPrune(nextPruneVersion); err != nil {
 					return err
 				}
